@@ -31,11 +31,13 @@ def check(repo, col, tier):
     col.rule("R-C10-sentinel", "padded index reaches a scatter only through mode='drop' + remap", 2)
     col.rule("R-C10-write-back", "write_trainables stores the simulated values", 4)
     col.rule("R-C10-pair", "trainable_params / indices_set_by_trainables change together", 3)
+    col.rule("R-C10-tojax", "every simulation starts from the current tables", 4)
     cl = idx.compute_slots(repo, col, "R-C10-scatter", emit=("jaxedges", "pstate"))
     _rows(repo, col)
     scatter_sites(repo, col, cl, "R-C10-scatter", "R-C10-sentinel")
     _write_back(repo, col)
     _pair(repo, col)
+    _tojax(repo, col)
 
 
 # --------------------------------------------------------------------------------------
@@ -346,3 +348,38 @@ def _pair(repo, col):
             want = 0 if s.key.name == B else 1
             col.check(i == want, R, fi, f"delete_trainables: {s.key.name} takes element {want} of the filter result",
                       "(indices, params) order", f"{s.key.name} = element {i}", node=s.node)
+
+
+def _tojax(repo, col):
+    """`set()` edits the pandas tables; the simulation reads jaxnodes/jaxedges.  Every entry point must rebuild them
+    unconditionally from the current tables, and the rebuild must cover every column."""
+    R = "R-C10-tojax"
+    fi = repo.func("jaxley/integrate.py", "integrate")
+    top = [st for st in fi.node.body if isinstance(st, ast.Expr) and isinstance(st.value, ast.Call) and unparse(st.value.func) == "module.to_jax"]
+    anywhere = [n for n in ast.walk(fi.node) if isinstance(n, ast.Call) and unparse(n.func) == "module.to_jax"]
+    col.add(R, fi, "integrate rebuilds jaxnodes/jaxedges unconditionally", "DISCHARGED" if top else ("VIOLATED" if anywhere else "VIOLATED"),
+            "module.to_jax() at the top level of integrate" if top else
+            ("module.to_jax() is only called conditionally: values changed with set() after a first simulation are ignored" if anywhere else
+             "integrate no longer calls module.to_jax(): parameters set with set() never reach the simulation"), node=(anywhere or [fi.node])[0])
+    first_use = None
+    for i, st in enumerate(fi.node.body):
+        if any(isinstance(n, ast.Name) and n.id in ("init_fn",) for n in ast.walk(st)) and first_use is None:
+            first_use = i
+    if top and first_use is not None:
+        col.check(fi.node.body.index(top[0]) < first_use, R, fi, "the rebuild precedes the assembly of parameters and states", "",
+                  "jaxnodes are rebuilt after the parameters were assembled", node=top[0])
+    tj = repo.method("Module", "to_jax")
+    loops = [n for n in ast.walk(tj.node) if isinstance(n, ast.For)]
+    iters = [unparse(n.iter).replace(" ", "") for n in loops]
+    ok = any(i.startswith("self.base.nodes.to_dict(") and i.endswith(".items()") for i in iters)
+    col.check(ok, R, tj, "to_jax copies every column of the node table", "loop over nodes.to_dict().items()",
+              f"to_jax no longer iterates all node columns (loops over {iters})", node=tj.node)
+    ok = "enumerate(self.base.synapses)" in iters and any(i.endswith(".synapse_params") for i in iters) and \
+        any(i.endswith(".synapse_states") for i in iters)
+    col.check(ok, R, tj, "to_jax copies every parameter and state of every synapse type", "",
+              f"to_jax no longer covers all synapse parameters/states (loops over {iters})", node=tj.node)
+    g = repo.method("Module", "_get_states_from_nodes_and_edges")
+    col.check("self.base.to_jax()" in unparse(g.node), R, g, "_get_states_from_nodes_and_edges rebuilds before reading", "",
+              "states are read from a stale jaxnodes", node=g.node)
+    w = repo.method("Module", "write_trainables")
+    col.check("self.base.to_jax()" in unparse(w.node), R, w, "write_trainables rebuilds before reading", "", "stale jaxnodes", node=w.node)
